@@ -168,6 +168,26 @@ func c16Nested(ps []c16Pair) c16E {
 	}}
 }
 
+// a composite-literal KEY that contains a Dict: typ{X: .., Y: ..} (distinct simple keys)
+func c16Comp(typ string, ps []c16Pair) c16E {
+	return c16E{T: typ + " " + c16DictText(c16Surviving(ps)), Mk: func() term.Node {
+		return term.S(term.Id(typ), term.G("Values", c16MkDict(ps)))
+	}}
+}
+
+// compKey draws such a key with 2..4 inner pairs over the fields X Y Z W (inserted in random
+// order) and small values: keys of one type share their text up to the first differing value.
+func (g *c16Gen) compKey(typ string) c16E {
+	r := g.r
+	fields := []string{"X", "Y", "Z", "W"}
+	n := 2 + r.Intn(3)
+	var ps []c16Pair
+	for _, j := range r.Perm(4)[:n] {
+		ps = append(ps, c16Pair{c16Id(fields[j]), c16Int(c16Ints[r.Intn(len(c16Ints))])})
+	}
+	return c16Comp(typ, ps)
+}
+
 // ---------------------------------------------------------------------------------------
 // drawing keys and values
 
@@ -262,6 +282,14 @@ func (g *c16Gen) pairs(n int, dup bool, family string, nested bool) (ps []c16Pai
 		case family == "prefix":
 			k = prefixKeys[r.Intn(len(prefixKeys))]
 			tags["prefix-keys"] = true
+		case family == "composite" || r.Intn(24) == 0:
+			// a Dict inside a Dict KEY; in the family all keys are literals of one type
+			typ := "Point"
+			if family != "composite" {
+				typ = pick(r, []string{"Point", "P2", "a"})
+			}
+			k = g.compKey(typ)
+			tags["dict-key-contains-dict"] = true
 		default:
 			k = g.expr(2)
 		}
@@ -422,6 +450,10 @@ func (c16) Generate(r *rand.Rand, t string) []*Case {
 			if np > 12 {
 				np = 12
 			}
+		case 4:
+			// 2..6 keys, each a composite literal of one type holding a Dict of 2..4 pairs
+			family = "composite"
+			np = 2 + r.Intn(5)
 		}
 		mode := "file"
 		if r.Intn(5) == 0 {
@@ -434,7 +466,174 @@ func (c16) Generate(r *rand.Rand, t string) []*Case {
 		formatted := !dup && r.Intn(2) == 0
 		out = append(out, c16MkCase(ps, tags, r.Intn(4), mode, r.Intn(2) == 0, r.Intn(3) == 0, formatted, stream))
 	}
+	nr := tier(t, 2500, 30000)
+	for i := 0; i < nr; i++ {
+		out = append(out, c16RenamedCase(r, i))
+	}
 	return out
+}
+
+// ---------------------------------------------------------------------------------------
+// keys that are Quals of packages whose names collide (stream qual-key-renamed)
+
+// c16RenFamilies: base names; for a base n the stream uses paths guessing n (several hosts,
+// also written N and n/) and paths guessing n0, n1, n2 (the numbered candidates themselves).
+var c16RenFamilies = []string{"x", "db", "util", "v", "zed"}
+
+// c16Guess: the name jennifer guesses for the paths of this stream (last element, lower
+// case, without a trailing slash; README "Qual": the package name is guessed from the path).
+func c16Guess(p string) string {
+	p = strings.TrimSuffix(p, "/")
+	return strings.ToLower(p[strings.LastIndex(p, "/")+1:])
+}
+
+// c16Aliases is the oracle's own statement of how colliding names are numbered when paths
+// are registered one after the other (README: "a unique name is created by appending a
+// number"): the first free one of n, n1, n2, ...; with a PackagePrefix every alias is
+// prefix_<that name> and both forms must be free.  No path of the stream has a hint or is
+// a standard library path, and no name is reserved.
+func c16Aliases(paths []string, prefix string) map[string]string {
+	used := map[string]bool{}
+	out := map[string]string{}
+	for _, p := range paths {
+		if _, ok := out[p]; ok {
+			continue
+		}
+		n := c16Guess(p)
+		full := func(u string) string {
+			if prefix != "" {
+				return prefix + "_" + u
+			}
+			return u
+		}
+		u := n
+		for i := 1; used[u] || used[full(u)]; i++ {
+			u = n + strconv.Itoa(i)
+		}
+		out[p] = full(u)
+		used[full(u)] = true
+	}
+	return out
+}
+
+// c16RenamedCase: the body first references 2..5 paths with colliding names in a fixed
+// order (so the aliases are numbered deterministically: x, x1, x0, ...), then declares a
+// Dict whose keys are Quals of these paths (inserted in another order) plus 0..2 plain
+// keys.  The pairs must be ordered by the text ACTUALLY WRITTEN (x.Key, x0.Key, x1.Key),
+// not by the text the keys would have in some other File.
+func c16RenamedCase(r *rand.Rand, typ int) *Case {
+	n := c16RenFamilies[r.Intn(len(c16RenFamilies))]
+	same := []string{"a.example/" + n, "b.example/" + n, "c.example/" + strings.ToUpper(n), "d.example/" + n + "/", "e.example/sub/" + n}
+	numbered := []string{"f.example/" + n + "0", "g.example/" + n + "1", "h.example/" + n + "2", "i.example/" + n + "1/"}
+	k := 2 + r.Intn(4) // 2..5 paths, at least two of them guess n itself
+	ns := 2 + r.Intn(k-1)
+	if ns > len(same) {
+		ns = len(same)
+	}
+	var paths []string
+	for _, i := range r.Perm(len(same))[:ns] {
+		paths = append(paths, same[i])
+	}
+	for _, i := range r.Perm(len(numbered))[:k-ns] {
+		paths = append(paths, numbered[i])
+	}
+	r.Shuffle(len(paths), func(a, b int) { paths[a], paths[b] = paths[b], paths[a] })
+	prefix := ""
+	if r.Intn(3) == 0 {
+		prefix = pick(r, []string{"pkg", "p", "gen"})
+	}
+	alias := c16Aliases(paths, prefix)
+
+	h := hist.History{{Kind: "newfile", F: 0, A: "p"}, {Kind: "noformat", F: 0, Flag: true}}
+	if prefix != "" {
+		h = append(h, hist.Op{Kind: "prefix", F: 0, A: prefix})
+	}
+	// the earlier references, in the order that decides the numbering (one or two statements)
+	if r.Intn(2) == 0 {
+		for _, p := range paths {
+			h = append(h, hist.Op{Kind: "fadd", F: 0, Code: term.S(term.Named("Var"), term.Id("_"), term.Op("="), term.Qual(p, "A"))})
+		}
+	} else {
+		var args []term.Node
+		for _, p := range paths {
+			args = append(args, term.S(term.Qual(p, "A")))
+		}
+		h = append(h, hist.Op{Kind: "fadd", F: 0, Code: term.S(term.Named("Var"), term.Id("_"), term.Op("="), term.Id("f"), term.G("Call", args...))})
+	}
+	// the Dict: a Qual key for each path (at least two), in random order, and plain keys
+	var ps []c16Pair
+	fresh := map[string]string{} // written key text -> the text the key would have in an empty File
+	nk := 2 + r.Intn(len(paths)-1)
+	for j, i := range r.Perm(len(paths))[:nk] {
+		p := paths[i]
+		name := "Key"
+		if r.Intn(4) == 0 {
+			name = "K" + strconv.Itoa(j)
+		}
+		fresh[alias[p]+"."+name] = c16Aliases([]string{p}, prefix)[p] + "." + name
+		ps = append(ps, c16Pair{c16E{T: alias[p] + "." + name, Qual: true, Mk: func() term.Node { return term.S(term.Qual(p, name)) }}, c16Int(j)})
+	}
+	g := &c16Gen{r: r}
+	seen := map[string]bool{}
+	for _, p := range ps {
+		seen[p.K.T] = true
+	}
+	for i := r.Intn(3); i > 0; i-- {
+		// plain keys that sort among the qualified ones: the bare names, n0, n.Key-like calls
+		e := []c16E{c16Id(n), c16Id(n + "0"), c16Id(n + "1"), c16Call(n), c16Str(n), g.atom()}[r.Intn(6)]
+		if !seen[e.T] {
+			seen[e.T] = true
+			ps = append(ps, c16Pair{e, g.atom()})
+		}
+	}
+	r.Shuffle(len(ps), func(a, b int) { ps[a], ps[b] = ps[b], ps[a] })
+	ty, tn := c16Type(typ % 3)
+	lit := term.S(append(append([]term.Node{term.Named("Var"), term.Id("_"), term.Op("=")}, ty...), term.G("Values", c16MkDict(ps)))...)
+	h = append(h, hist.Op{Kind: "fadd", F: 0, Code: lit}, hist.Op{Kind: "render", F: 0})
+	views := []string{"raw-file"}
+	if r.Intn(3) == 0 {
+		h = append(h, hist.Op{Kind: "render", F: 0})
+		views = append(views, "raw-file")
+	}
+	if r.Intn(2) == 0 {
+		h = append(h, hist.Op{Kind: "noformat", F: 0, Flag: false}, hist.Op{Kind: "render", F: 0})
+		views = append(views, "fmt-file")
+	}
+	h = append(h, hist.Op{Kind: "imports", F: 0})
+	views = append(views, "imports")
+	// renamed: some key is written with a numbered alias although its own guessed name is free
+	// in an empty File, and the order by written text differs from the order by the
+	// unnumbered text (the case decides between the two)
+	type kt struct{ written, fresh string }
+	var ks []kt
+	for _, p := range c16Surviving(ps) {
+		f, ok := fresh[p.K]
+		if !ok {
+			f = p.K // a plain key: the same text in every File
+		}
+		ks = append(ks, kt{p.K, f})
+	}
+	byWritten := append([]kt{}, ks...)
+	sort.SliceStable(byWritten, func(i, j int) bool { return byWritten[i].written < byWritten[j].written })
+	decisive := false
+	for i := 1; i < len(byWritten); i++ {
+		if byWritten[i-1].fresh > byWritten[i].fresh {
+			decisive = true
+		}
+	}
+	ts := []string{"qual-key-renamed", "family=" + n, "paths=" + strconv.Itoa(len(paths)), "type=" + tn, "mode=file", "qual-key"}
+	if prefix != "" {
+		ts = append(ts, "prefix")
+	}
+	if decisive {
+		ts = append(ts, "renamed-order-decisive")
+	}
+	sort.Strings(ts)
+	return &Case{Hist: h, Stream: "qual-key-renamed", Tags: ts,
+		// non-trivial: sorting by the written texts and sorting by the texts the keys would have
+		// in an empty File give different orders
+		NonTrivial: decisive,
+		Meta:       map[string]interface{}{"exp": c16Surviving(ps), "views": views, "dup": false}}
 }
 
 func (c16) Regressions() []*Case {
